@@ -26,23 +26,23 @@ NONTRIVIAL = {
 
 # (family, quick K, thorough K)
 BATTERY = {
-    "C01": [("rand", 500, 30000), ("stop", 300, 10000), ("dead", 150, 6000), ("ties", 80, 768),
-            ("tiny", 60, 324), ("edit", 100, 5000), ("slow", 40, 108), ("zerow", 36, 36)],
-    "C04": [("rand", 500, 30000), ("stop", 300, 10000), ("ties", 140, 768), ("dead", 100, 4000),
+    "C01": [("rand", 500, 12000), ("stop", 300, 5000), ("dead", 150, 3000), ("ties", 80, 768),
+            ("tiny", 60, 324), ("edit", 100, 2500), ("slow", 40, 108), ("zerow", 36, 36)],
+    "C04": [("rand", 500, 12000), ("stop", 300, 5000), ("ties", 140, 768), ("dead", 100, 2000),
             ("tiny", 60, 324), ("samerow", 144, 144), ("gap5", 16, 16)],
-    "C02": [("stop", 700, 40000), ("dead", 250, 12000), ("ties", 80, 768), ("tiny", 60, 324),
+    "C02": [("stop", 700, 16000), ("dead", 250, 4800), ("ties", 80, 768), ("tiny", 60, 324),
             ("bigrew", 36, 36), ("slow", 40, 108), ("slowrew", 48, 72)],
-    "C03": [("dead", 400, 20000), ("rand", 400, 20000), ("stop", 200, 8000), ("tiny", 80, 324),
+    "C03": [("dead", 400, 8000), ("rand", 400, 8000), ("stop", 200, 4000), ("tiny", 80, 324),
             ("nonabs", 100, 504), ("zerow", 36, 36)],
-    "C05": [("stop", 700, 40000), ("dead", 200, 8000), ("ties", 140, 768), ("nonabs", 120, 504),
+    "C05": [("stop", 700, 16000), ("dead", 200, 4000), ("ties", 140, 768), ("nonabs", 120, 504),
             ("bigrew", 36, 36), ("diag", 80, 160), ("samerow", 144, 144), ("slowrew", 36, 72), ("gap5", 16, 16)],
-    "C06": [("stop", 600, 30000), ("dead", 300, 20000), ("rand", 200, 8000), ("tiny", 60, 324),
-            ("edit", 120, 6000), ("nonabs", 100, 504), ("slow", 40, 108),
+    "C06": [("stop", 600, 12000), ("dead", 300, 8000), ("rand", 200, 4000), ("tiny", 60, 324),
+            ("edit", 120, 3000), ("nonabs", 100, 504), ("slow", 40, 108),
             ("zerow", 36, 36)],
-    "C14": [("stop", 800, 40000), ("dead", 250, 12000), ("diag", 160, 160), ("nonabs", 60, 504),
+    "C14": [("stop", 800, 16000), ("dead", 250, 4800), ("diag", 160, 160), ("nonabs", 60, 504),
             ("samerow", 144, 144), ("loopdiag", 72, 72), ("slowrew", 36, 72), ("forced", 64, 128)],
-    "C10": [("hist", 250, 12000), ("edit", 120, 6000), ("zerow", 36, 36)],
-    "C13": [("perm", 400, 20000)],
+    "C10": [("hist", 250, 4800), ("edit", 120, 3000), ("zerow", 36, 36)],
+    "C13": [("perm", 400, 8000)],
 }
 
 
@@ -155,7 +155,7 @@ def odd_names(g):
 
 BIG_PROPS = ("C01", "C02", "C03", "C04", "C05", "C06", "C10", "C13")
 BIG_QUICK = [(3, 3, 11), (1, 12, 12), (12, 1, 13), (5, 5, 14), (2, 2, 15)]
-BIG_THOROUGH = BIG_QUICK + [(8, 8, 21), (10, 5, 22), (20, 10, 23), (3, 200, 24), (40, 10, 25), (6, 6, 26), (4, 7, 27)]
+BIG_THOROUGH = BIG_QUICK + [(8, 8, 21), (10, 5, 22), (20, 10, 23), (3, 200, 24), (6, 6, 26), (4, 7, 27)]
 
 
 def permute_game(g, rng):
